@@ -303,7 +303,14 @@ pub fn init_from_file(config_path: &Path) -> Result<InitResult> {
     });
   }
 
-  let processor = Arc::new(EventProcessor::new(actors, error_tx_channel));
+  let logger_gates: Vec<(String, bool)> = internal_config
+    .loggers
+    .iter()
+    .filter(|(name, _)| name.as_str() != "root")
+    .map(|(_, logger)| (logger.name.clone(), logger.additive))
+    .collect();
+  let processor =
+    Arc::new(EventProcessor::new(actors, error_tx_channel).with_logger_gates(logger_gates));
   let max_level = processor.max_level();
 
   let dispatch_layer = DispatchLayer::new(Arc::clone(&processor));
